@@ -383,3 +383,23 @@ claim("C15",
       category="other",
       technique="contract-based: postconditions over a ghost log of the collaborator calls of the real method "
                 "(pyvc + z3), cross-checked natively with recording stand-ins")
+
+
+claim("C32",
+      "BOUNDED STAND-IN, nothing is proved: find_deployment_id / _append_random_suffix are string functions (lower, "
+      "re.sub, slicing, random hex digits) outside the verifier's encoding, in a module that imports the kubernetes "
+      "client (not installed here). Their `def`s are extracted mechanically from the real k8s_client.py on every run and "
+      "executed with a seeded `random` and a stub for the Kubernetes look-up `validate_deployment_id`; the contract "
+      "taken from the statement (the id is a valid DNS-1035 label of at most 63 characters; a name with at least three "
+      "lowercase alphanumerics gives an id made of exactly those; a name with fewer gets a random suffix - split into "
+      "the two classes 'normalised form shorter than three' and 'hyphenated form of three or more'; a forced suffix / "
+      "a taken id gives a suffixed id) is checked at run time over a complete enumeration: every display name of "
+      "length 0..4 (0..5 thorough) over 11 symbols incl. non-ASCII letters and digits, plus long names around the "
+      "63-character limit, with and without force_suffix, with 0 and 2 ids taken. The second class failed on the "
+      "unchanged tree ('7' -> 'd-7', 'a b' -> 'a-b') and was repaired by fix 2c03820.",
+      "Bound: the alphabet and lengths above, one seed of the random suffix per run, at most two collisions; what the "
+      "extraction drops: everything of k8s_client.py except the two functions, and the real Kubernetes look-up.",
+      category="exploration",
+      technique="bounded stand-in for contract verification: run-time checked contract on mechanically extracted real "
+                "functions over an exhaustively enumerated finite domain (stated bound); labelled bounded, not counted "
+                "as proved")
